@@ -133,9 +133,9 @@ theorem c04_progress_eintr (g : Cfg) (s : S) (k n0 : Nat) (ks : List KAns) (hr :
 
 /-- **C04 (flush with nothing to flush).** `flush` on an empty queue calls `c.resetRead()` (repo fix "flush drops
     the writing event when there is nothing to flush"). In every reachable state of this model without a connect in
-    progress that is a no-op: by `c04_belief` no write interest is registered for an empty queue. (The state the fix
-    is about — a dial that connected at once, registered read+write with no callback pending — is not produced by
-    `registerDial`, which always has the connected callback pending; see the manifest note.) -/
+    progress and without an idle write interest (`idle = false`) that is a no-op: by `c04_belief` no write interest is
+    registered for an empty queue then. The state the fix is about — a dial that connected at once, registered read+write
+    with no callback pending (`registerDialNow`, `idle = true`) — is `c04_flush_empty_drops_idle`. -/
 theorem c04_flush_empty_noop (g : Cfg) (s : S) (ks : List KAns) (hr : Reach g s) (hc : s.closed = false)
     (hcn : s.connecting = false) (hid : s.idle = false) (hw : s.wl = []) : flush g s ks = s := by
   obtain ⟨hd, ha⟩ := reach_inv hr
